@@ -22,10 +22,14 @@
 //!        -> err:invalid | ok <ntab> {<f32> <text:hex>} <nforms> {form <display:hex>}
 //!           (`Peptide::to_string()` of every form of `apply`, with the `{:+}` text of every mass shown as a table:
 //!            the float printer is data, the structure of `Display for Peptide` is what is compared)
+//!   dbmulti <7 opt EnzymeBuilder fields> <k> {<protein:hex>}*k <max> <vars> <statics>
+//!        -> panic | ok <n> {<seq:hex> form <position 0..3> <j> <protein index>*j}
+//!           (`Parameters::digest` on a FASTA of k target proteins `P0`..: every database entry with its protein
+//!            list and `position`; the same peptide at different protein positions in different proteins)
 use super::Info;
 use crate::proto::{Case, Out, Rng, Tier, Toks};
 use sage_core::database::{Builder, EnzymeBuilder};
-use sage_core::enzyme::{Digest, DigestGroup, Position};
+use sage_core::enzyme::{Digest, DigestGroup, EnzymeParameters, Position};
 use sage_core::fasta::Fasta;
 use sage_core::modification::{validate_mods, InvalidModification, ModificationSpecificity};
 use sage_core::peptide::Peptide;
@@ -33,7 +37,7 @@ use std::collections::HashMap;
 use std::str::FromStr;
 use std::sync::Arc;
 
-pub const OPS: &[&str] = &["modkey", "apply", "dbforms", "dbdigest", "pepdisplay"];
+pub const OPS: &[&str] = &["modkey", "apply", "dbforms", "dbdigest", "pepdisplay", "dbmulti"];
 pub const INFO: Info = Info {
     rule: "modkey: every string of length <= 2 (quick) / <= 3 (thorough) over the 12-character alphabet \
            ^ $ [ ] M K A Z B m e-acute '-', all 114 documented keys, every ASCII character alone and after each marker, \
@@ -44,7 +48,7 @@ pub const INFO: Info = Info {
            (^A + A with the same mass, a mass listed twice), variable + static on the same residue, both termini \
            of a length-1 peptide, overlapping static mods, zero masses; exhaustive small scope: all sequences over \
            {A,K} up to length 2 (4 thorough) x 4 positions x 12 variable sets x 6 static sets x max 1..2 (1..3). \
-           long peptides (default on): 60..140 residues and some 255..300, at most 6 candidate sites placed 64/128 apart, at residue 62/63 together with a terminal key, straddling index 64, or sparse at random, max 2..3, through apply and dbforms. pepdisplay: Peptide::to_string of every form for the directed apply cases and a deterministic eighth of all others, with the {:+} text of each shown mass as a table. dbdigest: proteins of 4..28 residues digested by Parameters::digest with a real enzyme (KR|P, KR, K, R|P, N-terminal D, N-terminal KR; 0..2 missed cleavages; sometimes semi-enzymatic), variable keys among residues and [ ] ^ $ [X ]X ^X $X, non-overlapping static keys, mass bounds on / one ulp around real form masses; non-trivial = peptides at >= 2 different positions and at least one modified form. dbforms: the same peptides through Parameters::digest with mass bounds placed on / one ulp around the \
+           long peptides (default on): 60..140 residues and some 255..300, at most 6 candidate sites placed 64/128 apart, at residue 62/63 together with a terminal key, straddling index 64, or sparse at random, max 2..3, through apply and dbforms. pepdisplay: Peptide::to_string of every form for the directed apply cases and a deterministic eighth of all others, with the {:+} text of each shown mass as a table. dbmulti: 2..5 proteins built from peptide blocks so that one (sometimes two) peptides are shared and occur N-terminal in one protein and C-terminal / internal / full-length in others; the other peptides start with A/C or Y/W/V so that the shared peptide is the last of one position block and the first of the next in group_digests' sort (tagged when it is); keys [ ] [X ]X ^ $ ^X and residues, non-overlapping statics; through Parameters::digest; non-trivial = some peptide at two different protein positions and a protein-terminal key. dbdigest: proteins of 4..28 residues digested by Parameters::digest with a real enzyme (KR|P, KR, K, R|P, N-terminal D, N-terminal KR; 0..2 missed cleavages; sometimes semi-enzymatic), variable keys among residues and [ ] ^ $ [X ]X ^X $X, non-overlapping static keys, mass bounds on / one ulp around real form masses; non-trivial = peptides at >= 2 different positions and at least one modified form. dbforms: the same peptides through Parameters::digest with mass bounds placed on / one ulp around the \
            masses of generated forms. non-trivial = at least one modified form generated (apply), bound cuts the \
            form list (dbforms); distinct by request line",
     serial: false,
@@ -185,6 +189,50 @@ fn run_digest(enzyme: &EnzymeBuilder, prot: &str, max: usize, lo: f32, hi: f32, 
     };
     let params = builder.make_parameters();
     let fasta = Fasta::parse(format!(">P1 test\n{}\n", prot), "rev_", false);
+    params.digest(&fasta)
+}
+
+fn read_enzyme(t: &mut Toks) -> Option<EnzymeBuilder> {
+    let mc = t.opt(|t| t.usize())?;
+    let min_len = t.opt(|t| t.usize())?;
+    let max_len = t.opt(|t| t.usize())?;
+    let cleave = t.opt(|t| t.string())?;
+    let restrict = t.opt(|t| t.usize())?;
+    let c_terminal = t.opt(|t| t.bool())?;
+    let semi = t.opt(|t| t.bool())?;
+    Some(EnzymeBuilder {
+        missed_cleavages: mc.map(|x| x as u8),
+        min_len,
+        max_len,
+        cleave_at: cleave,
+        restrict: restrict.map(|c| c as u8 as char),
+        c_terminal,
+        semi_enzymatic: semi,
+    })
+}
+
+fn multi_fasta(prots: &[String]) -> String {
+    let mut text = String::new();
+    for (i, p) in prots.iter().enumerate() {
+        text.push_str(&format!(">P{} protein {}\n{}\n", i, i, p));
+    }
+    text
+}
+
+fn run_multi(enzyme: &EnzymeBuilder, prots: &[String], max: usize, vars: &VarMods, statics: &StaticMods) -> Vec<Peptide> {
+    let builder = Builder {
+        enzyme: Some(enzyme.clone()),
+        peptide_min_mass: Some(f32::NEG_INFINITY),
+        peptide_max_mass: Some(f32::INFINITY),
+        static_mods: Some(statics.iter().cloned().collect()),
+        variable_mods: Some(vars.iter().cloned().collect()),
+        max_variable_mods: Some(max),
+        generate_decoys: Some(false),
+        fasta: Some("none".into()),
+        ..Default::default()
+    };
+    let params = builder.make_parameters();
+    let fasta = Fasta::parse(multi_fasta(prots), "rev_", false);
     params.digest(&fasta)
 }
 
@@ -352,6 +400,42 @@ pub fn exec(op: &str, t: &mut Toks) -> Option<String> {
                         }
                         o.s(&d);
                     }
+                }
+            }
+        }
+        "dbmulti" => {
+            let enzyme = read_enzyme(t)?;
+            let prots = t.list(|t| t.string())?;
+            let max = t.usize()?;
+            let (vars, statics) = read_mods(t)?;
+            let db = run_multi(&enzyme, &prots, max, &vars, &statics);
+            let mut rows: Vec<Vec<u64>> = db
+                .iter()
+                .map(|p| {
+                    let mut v: Vec<u64> = vec![p.sequence.len() as u64];
+                    v.extend(p.sequence.iter().map(|b| *b as u64));
+                    write_form(&mut v, p);
+                    v.push(match p.position {
+                        Position::Nterm => 0,
+                        Position::Cterm => 1,
+                        Position::Full => 2,
+                        Position::Internal => 3,
+                    });
+                    v.push(p.proteins.len() as u64);
+                    for name in &p.proteins {
+                        v.push(name[1..].parse::<u64>().expect("protein name"));
+                    }
+                    v
+                })
+                .collect();
+            rows.sort();
+            o.raw("ok").n(rows.len());
+            for r in rows {
+                let n = r[0] as usize;
+                let seq: Vec<u8> = r[1..1 + n].iter().map(|x| *x as u8).collect();
+                o.bytes(&seq);
+                for x in &r[1 + n..] {
+                    o.n(*x);
                 }
             }
         }
@@ -1151,6 +1235,193 @@ fn gen_digest(rng: &mut Rng, tier: Tier, emit: &mut dyn FnMut(Case)) {
     }
 }
 
+// ------------------------------------------------------------------------------ several proteins sharing peptides
+
+fn write_enzyme(o: &mut Out, e: &EnzymeBuilder) {
+    opt_tok(o, e.missed_cleavages);
+    opt_tok(o, e.min_len);
+    opt_tok(o, e.max_len);
+    match &e.cleave_at {
+        None => { o.n(0); }
+        Some(c) => { o.n(1).s(c); }
+    }
+    opt_tok(o, e.restrict.map(|c| c as u32));
+    opt_tok(o, e.c_terminal.map(|b| b as u8));
+    opt_tok(o, e.semi_enzymatic.map(|b| b as u8));
+}
+
+fn req_multi(e: &EnzymeBuilder, prots: &[String], max: usize, vars: &VarMods, statics: &StaticMods) -> String {
+    let mut o = Out::new();
+    o.raw("dbmulti");
+    write_enzyme(&mut o, e);
+    o.n(prots.len());
+    for p in prots {
+        o.s(p);
+    }
+    o.n(max);
+    write_mods(&mut o, vars, statics);
+    o.finish()
+}
+
+fn emit_multi(emit: &mut dyn FnMut(Case), tag: &'static str, e: &EnzymeBuilder, prots: &[String], mut max: usize,
+              vars: &VarMods, statics: &StaticMods) -> bool {
+    if prots.is_empty() || prots.iter().any(|p| p.is_empty()) {
+        return false;
+    }
+    for (i, (k, _)) in vars.iter().enumerate() {
+        if vars[..i].iter().any(|(k2, _)| k2 == k) {
+            return false;
+        }
+    }
+    let worst = prots.iter().map(|p| shape(2, p, vars, statics).cands).max().unwrap_or(0);
+    while max > 1 && binom_sum(worst, max) > 120 {
+        max -= 1;
+    }
+    if binom_sum(worst, max.max(1)) > 120 {
+        return false;
+    }
+    // the digests with their positions (real code; used for the distribution tags only)
+    let (e2, p2) = (e.clone(), prots.to_vec());
+    let digests: Vec<Digest> = match std::panic::catch_unwind(move || {
+        let ep: EnzymeParameters = e2.into();
+        p2.iter().enumerate().flat_map(|(i, p)| ep.digest(p, Arc::from(format!("P{}", i)))).collect::<Vec<_>>()
+    }) {
+        Ok(d) => d,
+        Err(_) => return false,
+    };
+    if digests.is_empty() {
+        return false;
+    }
+    let mut keyed: Vec<(Position, String)> = digests.iter().map(|d| (d.position, d.sequence.clone())).collect();
+    keyed.sort();
+    keyed.dedup();
+    let two_pos = keyed.iter().any(|(p, s)| keyed.iter().any(|(p2, s2)| s == s2 && p != p2));
+    let boundary = keyed.windows(2).any(|w| w[0].0 != w[1].0 && w[0].1 == w[1].1);
+    let nboundary = keyed.windows(2).filter(|w| w[0].0 != w[1].0 && w[0].1 == w[1].1).count();
+    let prot_keys = vars.iter().any(|(k, _)| k.starts_with('[') || k.starts_with(']'))
+        || statics.iter().any(|(k, _)| k.starts_with('[') || k.starts_with(']'));
+    emit(Case::new(req_multi(e, prots, max, vars, statics))
+        .tag(tag)
+        .tag_if(two_pos, "multi:same-peptide-at-two-positions")
+        .tag_if(boundary, "multi:same-peptide-adjacent-across-position-blocks")
+        .tag_if(nboundary >= 2, "multi:two-block-boundaries-hit")
+        .tag_if(prot_keys, "multi:protein-terminal-keys")
+        .tag_if(e.missed_cleavages.unwrap_or(0) > 0, "multi:missed-cleavages")
+        .nontrivial(two_pos && prot_keys));
+    true
+}
+
+fn gen_multi(rng: &mut Rng, tier: Tier, emit: &mut dyn FnMut(Case)) {
+    let e: StaticMods = vec![];
+    let ps = |v: &[&str]| -> Vec<String> { v.iter().map(|s| s.to_string()).collect() };
+    let term_vars = vm(&[("[", &[42.010565]), ("]", &[-17.026548])]);
+    // directed: the shared peptide S = MCSK sits last in one position block and first in the next one of
+    // group_digests' sort (position, sequence): other peptides of the earlier block start with A, of the later with Y/W
+    for mc in [0u8, 1] {
+        let tr = enzyme("KR", None, true, mc, 1, 40, false);
+        for (vars, statics) in [
+            (term_vars.clone(), e.clone()),
+            (vm(&[("[M", &[1.0]), ("]K", &[2.0]), ("M", &[15.9949])]), sm(&[("C", 57.021465)])),
+            (vm(&[("^", &[4.0]), ("M", &[15.9949])]), sm(&[("[", 42.010565)])),
+            (vm(&[("$", &[4.0])]), sm(&[("]", 1.0), ("C", 57.021465)])),
+        ] {
+            // N-terminal | C-terminal
+            emit_multi(emit, "multi:directed", &tr, &ps(&["MCSKYAGKWWG", "AAGKYSRMCSK"]), 2, &vars, &statics);
+            emit_multi(emit, "multi:directed", &tr, &ps(&["AAGKYSRMCSK", "MCSKYAGKWWG", "ACCKWGGR"]), 2, &vars, &statics);
+            // C-terminal | full
+            emit_multi(emit, "multi:directed", &tr, &ps(&["AAGKYSRMCSK", "MCSK", "AGKACK"]), 2, &vars, &statics);
+            // full | internal
+            emit_multi(emit, "multi:directed", &tr, &ps(&["MCSK", "AAGKMCSKYYG", "AGKYCKAG"]), 2, &vars, &statics);
+            // N-terminal | C-terminal | full | internal: all four
+            emit_multi(emit, "multi:directed", &tr, &ps(&["MCSKYAGKWWG", "AAGKYSRMCSK", "MCSK", "AAGKMCSKYYG"]), 2, &vars, &statics);
+            // alphabetically extreme shared peptides
+            emit_multi(emit, "multi:directed", &tr, &ps(&["AAAAKYYGKWW", "AAAAK", "ACKAAAAK", "ACKAAAAKYYR"]), 2, &vars, &statics);
+            emit_multi(emit, "multi:directed", &tr, &ps(&["YYYYKAAGKAC", "YYYYK", "ACKYYYYK", "ACKYYYYKAAR"]), 2, &vars, &statics);
+            emit_multi(emit, "multi:directed", &tr, &ps(&["WWWWKAAGK", "AGKWWWWK", "AGKWWWWKAGK"]), 2, &vars, &statics);
+            // not adjacent (control): another peptide sits between the two occurrences in the sort
+            emit_multi(emit, "multi:directed", &tr, &ps(&["MCSKYAGKWWG", "YAGKYSRMCSK", "AAAKGG", "GGKAAA"]), 2, &vars, &statics);
+        }
+    }
+    // N-terminal cleavage (the peptide starts with D)
+    emit_multi(emit, "multi:directed", &enzyme("D", None, false, 0, 1, 40, false), &ps(&["DMCSDYAG", "AAGDYSDMCS", "DMCS"]), 2, &term_vars, &e);
+
+    let n = if tier == Tier::Quick { 400 } else { 15000 };
+    let low: &[u8] = b"AAC";
+    let high: &[u8] = b"YWV";
+    let mid: &[u8] = b"MSGTCA";
+    let mut done = 0;
+    let mut attempts = 0;
+    while done < n && attempts < 20 * n {
+        attempts += 1;
+        let block = |rng: &mut Rng, first: &[u8], close: bool| -> String {
+            let len = 1 + rng.below(4);
+            let mut v: Vec<u8> = vec![*rng.pick(first)];
+            for _ in 1..len {
+                v.push(*rng.pick(mid));
+            }
+            if close {
+                v.push(*rng.pick(b"KKR"));
+            }
+            String::from_utf8(v).unwrap()
+        };
+        // the shared peptide: sometimes itself alphabetically extreme
+        let s_first: &[u8] = match rng.below(4) { 0 => low, 1 => high, _ => b"MS" };
+        let shared = block(rng, s_first, true);
+        let shared2 = block(rng, b"MSG", true);
+        let k = 2 + rng.below(4);
+        let mut prots: Vec<String> = Vec::new();
+        for _ in 0..k {
+            // fillers of one protein come from one side of the alphabet or from anywhere
+            let side = |rng: &mut Rng| -> &'static [u8] { match rng.below(3) { 0 => b"AAC", 1 => b"YWV", _ => b"ACGMSTVWY" } };
+            let mut p = String::new();
+            match rng.below(8) {
+                0 | 1 => { p.push_str(&shared); let a = side(rng); p.push_str(&block(rng, a, true)); let b = side(rng); let cl = rng.chance(1, 2); p.push_str(&block(rng, b, cl)); }
+                2 | 3 => { let a = side(rng); p.push_str(&block(rng, a, true)); let b = side(rng); p.push_str(&block(rng, b, true)); p.push_str(&shared); }
+                4 => { p.push_str(&shared); }
+                5 | 6 => { let a = side(rng); p.push_str(&block(rng, a, true)); p.push_str(&shared); let b = side(rng); let cl = rng.chance(1, 2); p.push_str(&block(rng, b, cl)); }
+                _ => { let a = side(rng); p.push_str(&block(rng, a, true)); let b = side(rng); let cl = rng.chance(1, 2); p.push_str(&block(rng, b, cl)); }
+            }
+            if rng.chance(1, 4) {
+                // a second shared peptide, in front or behind
+                if rng.chance(1, 2) { p = format!("{}{}", shared2, p); } else if p.ends_with('K') || p.ends_with('R') { p.push_str(&shared2); }
+            }
+            prots.push(p);
+        }
+        let mc = if rng.chance(1, 4) { 1 } else { 0 };
+        let ez = if rng.chance(1, 10) { enzyme("K", None, true, mc, 1, 40, false) } else { enzyme("KR", None, true, mc, 1 + rng.below(2), 40, false) };
+        let sb = shared.as_bytes();
+        let mut vars: VarMods = Vec::new();
+        let nv = 1 + rng.below(3);
+        for j in 0..nv {
+            let k: String = match if j == 0 { rng.below(4) } else { rng.below(10) } {
+                0 => "[".into(),
+                1 => "]".into(),
+                2 => format!("[{}", sb[0] as char),
+                3 => format!("]{}", sb[sb.len() - 1] as char),
+                4 => "^".into(),
+                5 => "$".into(),
+                6 => format!("^{}", sb[0] as char),
+                _ => (*rng.pick(b"MSCKT") as char).to_string(),
+            };
+            if vars.iter().any(|(k2, _)| *k2 == k) {
+                continue;
+            }
+            vars.push((k, vec![mass(rng)]));
+        }
+        let mut statics: StaticMods = Vec::new();
+        if rng.chance(1, 3) {
+            statics.push(((*rng.pick(b"CMS") as char).to_string(), mass(rng)));
+        }
+        if rng.chance(1, 3) {
+            statics.push((rng.pick(&["[", "]", "^", "$"]).to_string(), mass(rng)));
+        }
+        let max = *rng.pick(&[1usize, 2, 2]);
+        if emit_multi(emit, "multi:random", &ez, &prots, max, &vars, &statics) {
+            done += 1;
+        }
+    }
+}
+
 pub fn gen(rng: &mut Rng, tier: Tier, emit: &mut dyn FnMut(Case)) {
     gen_modkey(tier, emit);
     gen_directed(emit);
@@ -1159,4 +1430,5 @@ pub fn gen(rng: &mut Rng, tier: Tier, emit: &mut dyn FnMut(Case)) {
     gen_db(rng, tier, emit);
     gen_long(rng, tier, emit);
     gen_digest(rng, tier, emit);
+    gen_multi(rng, tier, emit);
 }
